@@ -299,3 +299,12 @@ package certstore
 //@     before[the_stored_bytes_are_what_is_decoded] arg(0) == &c && arg(1) == res(NewReader, 1) && argOf(NewReader, 1, 0) == res(Get, 1, 0) && res(Get, 1, 1) == nil
 //@   at return 4
 //@     before[the_decoded_certificate_is_returned] arg(0) == &c && res(UnmarshalCBOR, 1) == nil
+
+// Unsubscribing: the channel is closed only under the store's lock and only after it was taken out of the subscriber
+// set, so a Put that holds the lock never sends on a closed channel.
+//@ func (*Store).Subscribe$1
+//@   property C09
+//@   modifies auto
+//@   maypanic
+//@   at close 1
+//@     before[closed_under_the_lock_after_being_unregistered] dominatedBy(Lock, 1) && !called(Unlock, 1) && arg(0) == ch && !has(cs.subscribers, ch)
